@@ -280,7 +280,7 @@ def match_finding(findings, **facts):
         m = f.get("match", {})
         ok = True
         for k, want in m.items():
-            if k in ("by", "comment"):
+            if k in ("by", "comment", "switches"):
                 continue
             have = facts.get(k)
             if isinstance(want, list):
